@@ -85,6 +85,11 @@ def gen_specs(ctx, pid):
             # half of the databases without references (tables/columns/indexes in isolation), half with: "each table
             # exactly once" is stated for every database
             spec = strip_refs(spec)
+        if wild and pid in ('C03', 'C18') and i % 4 == 2:
+            # a table without columns can be built through the API; it is still a table of the database
+            spec['tables'].insert(rng.randrange(len(spec['tables']) + 1) if not spec['refs'] and not spec['groups'] else len(spec['tables']),
+                                  {'name': 'empty_%d' % (i % 7), 'schema': rng.choice(['public', 'hr']), 'alias': None, 'columns': [], 'indexes': [],
+                                   'note': '', 'header_color': None, 'comment': None, 'abstract': False, 'props': []})
         if pid == 'C18':
             # more inline references, fewer distractions
             for r in spec['refs']:
